@@ -499,7 +499,7 @@ theorem indentedContentFilter_ok (t : Str) : Ok (indentedContentFilter t) := by
     hoare
 
 section
-variable (rec : Rec) (env : Env) (hs : ∀ x, Ok (rec.spans x)) (hdoc : ∀ x, Ok (rec.document x))
+variable (rec : Rec) (env : Env) (hs : ∀ x, Ok (rec.spans x)) (hdoc : ∀ d x, Ok (rec.document d x))
 include hs
 
 theorem macroDefContentFilter_ok (text : Str) (mt : Match) (e : Expand) : Ok (macroDefContentFilter rec env text mt e) := by
@@ -914,8 +914,8 @@ theorem documentLoop_ok (hsf : ∀ x, Pres Frame (rec.spans x)) : ∀ fuel r w, 
   | zero => intro r w s hI; unfold documentLoop; hoare
   | succ n ih => intro r w s hI; unfold documentLoop; hoare
 
-theorem documentRender_ok (hsf : ∀ x, Pres Frame (rec.spans x)) (fuel : Nat) (source : Str) :
-    Ok (documentRender rec env fuel source) := by
+theorem documentRender_ok (hsf : ∀ x, Pres Frame (rec.spans x)) (fuel : Nat) (source : Str) (d : Nat) :
+    Ok (documentRender rec env fuel source d) := by
   have h := documentLoop_ok rec env hs hdoc hsf
   intro s hI
   unfold documentRender
@@ -925,22 +925,24 @@ end
 
 /-! ## the knot, and the API -/
 
-theorem mkRec_ok (env : Env) : ∀ n, (∀ x, Ok ((mkRec env n).spans x)) ∧ (∀ x, Ok ((mkRec env n).document x)) := by
+theorem mkRec_ok (env : Env) : ∀ n, (∀ x, Ok ((mkRec env n).spans x)) ∧ (∀ d x, Ok ((mkRec env n).document d x)) := by
   intro n
   induction n with
   | zero =>
-    refine ⟨?_, ?_⟩ <;> intro x s hI <;> unfold mkRec <;> exact wpE_raise _ rfl
+    refine ⟨?_, ?_⟩
+    · intro x s hI; unfold mkRec; exact wpE_raise _ rfl
+    · intro d x s hI; unfold mkRec; exact wpE_raise _ rfl
   | succ n ih =>
     refine ⟨?_, ?_⟩
     · intro x; unfold mkRec; exact spansRender_ok _ env ih.1 x
-    · intro x; unfold mkRec; exact documentRender_ok _ env ih.1 ih.2 (mkRec_spec env n).1 (n + 1) x
+    · intro d x; unfold mkRec; exact documentRender_ok _ env ih.1 ih.2 (mkRec_spec env n).1 (n + 1) x d
 
 /-- **From a session that satisfies the invariant - or from a freshly imported package - a `render` call returns in a
     session that satisfies it, or ends in an `Allowed` outcome.** -/
 theorem apiRender_ok (env : Env) (fuel : Nat) (source : Str) (opts : RenderOptions) (s : Session)
     (h : s.safeMode = -1 ∨ Inv s) : wpE (apiRender env fuel source opts) (fun _ s' => Inv s') Allowed s := by
   have hu := updateFrom_ok opts
-  have hd := (mkRec_ok env fuel).2 source
+  have hd := (mkRec_ok env fuel).2 0 source
   unfold apiRender
   apply wpE_bind
   apply wpE_get
